@@ -191,6 +191,8 @@ def present(values, layout):
 def threshold(rng, cost=None):
     """t > 0 spread over orders of magnitude (t <= 1 for R2)."""
     if cost == 'r2':
+        if rng.random() < 0.05:
+            return 1.0                       # the boundary of the stated domain (t <= 1 for R2)
         return float(rng.uniform(0.0, 1.0)) if rng.random() < 0.8 else float(1.0 - 10 ** rng.uniform(-6, -1))
     return float(10.0 ** rng.uniform(-4, 0))
 
